@@ -75,7 +75,15 @@ Definition with_roots (o : obj) (r : nat) :=
 
 Definition opt_list (x : option nat) : list nat := match x with Some i => [i] | None => [] end.
 
-(* strong references held by an object *)
+(* strong references held by an object = the edges its type reports to the cyclic collector:
+     cdatagcp_traverse :2094        Py_VISIT(destructor); Py_VISIT(origobj)  -- BOTH, independently:
+                                    origobj is an edge also when the destructor slot is NULL
+                                    (after gc(w, None), or an allocator without free)
+     cdataowninggc_traverse :1989   handle: Py_VISIT(structobj)
+     cdatafrombuf_traverse :2003    Py_VISIT(view->obj)
+     CDataOwning_Type (struct pointer) is not a GC type: it holds structobj by reference count only
+   [garbage] and [reachable] are computed from these edges: an edge missing from tp_traverse makes
+   the real collector leave a cycle alone that the model frees (seen as "still alive" by the run). *)
 Definition refs_of (o : obj) : list nat :=
   if alive o then
     match k o with
